@@ -15,7 +15,7 @@ def F(name, header, csig, rules=(), scope=None, **kw):
     fns.append(Fn(name=name, header=header, csig=csig, scope=scope, rules=list(rules), **kw))
 
 
-MEMB = Call(r'VX_INIT__(\w+)', 'self->{m1} = ({args})', name='R17:member initializer m(e)')
+MEMB = Call(r'VX_INIT__(\w+)', 'self->{m1} = ({args})', name='R19:member initializer m(e)')
 THIS = S(r'return \*this;', 'return self;', name='R4:return *this')
 
 
